@@ -122,6 +122,7 @@ func campaignC18(p *Parser, req *Request, resp *Response) {
 			resp.Runs++
 			if r.Aborted || r.Overflow {
 				resp.stat("solo_capped", 1)
+				resp.Notes = append(resp.Notes, fmt.Sprintf("solo run hit the step cap: parser %s flags %v input %q grammar %q", p.Name, p.Flags, c.Input, p.GrammarText))
 				cappedParsers[p.Name]++
 				return
 			}
